@@ -80,7 +80,7 @@ Print Assumptions C22_chunk_first_not_final.
 
 (* Idempotence on the covered fragment (wf_body: see CbeProofs section 12; it
    excludes times, custom text, big floats that are not exactly a float64, big
-   decimal zeros, big decimal exponents beyond +-(2^31-1), version 1 and event
+   decimal exponents beyond +-(2^31-1), version 1 and event
    sequences that break the array protocol): decoding the encoder's document
    succeeds and encoding the decoded events reproduces it byte for byte. *)
 Theorem C22_reencode_idempotent :
@@ -101,18 +101,11 @@ Theorem C22_reencode_idempotent_checked :
 Proof. exact reencode_idempotent_checked. Qed.
 Print Assumptions C22_reencode_idempotent_checked.
 
-(* Without the restriction the statement is false: a big decimal zero is
-   written as 76 02, decoded as the decimal float zero and re-encoded as 00. *)
+(* Without the restriction the statement is false: an apd exponent of MinInt32
+   is written as an exponent field the decoder rejects. *)
 Theorem C22_reencode_full_refuted : ~ reencode_full.
 Proof. exact reencode_full_refuted. Qed.
 Print Assumptions C22_reencode_full_refuted.
-
-Theorem C22_reencode_bigdecimal_zero_witness :
-  cbe_encode bigdecimal_zero_doc = Some [129; 0; 118; 2] /\
-  cbe_decode default_dcfg [129; 0; 118; 2] = ([EBeginDoc; EVersion 0; EDecimal (DFin false 0 0); EEndDoc], DOk) /\
-  cbe_encode (fst (cbe_decode default_dcfg [129; 0; 118; 2])) = Some [129; 0; 0].
-Proof. exact reencode_bigdecimal_zero. Qed.
-Print Assumptions C22_reencode_bigdecimal_zero_witness.
 
 Theorem C22_reencode_bigdecimal_expmin_witness :
   cbe_encode bigdecimal_expmin_doc = Some [129; 0; 118; 130; 128; 128; 128; 224; 255; 255; 255; 255; 1; 7] /\
